@@ -94,7 +94,9 @@ func runC17(cfg Config) {
 		"digest vectors vs Go crypto; generated blobs split into 0..120 chunks (sizes 1..64, equal-size runs) x worker count n in 0..64 x "+
 			"{exact file, single byte flipped in the first/last/every batch-boundary chunk and at random positions, truncated/extended by "+
 			"1..k bytes, two equal-size chunks swapped, index with a wrong ID} under both digests: VerifyIndex verdict vs model; monitor: "+
-			"accepted iff file == blob. non-trivial = distinct case with >= 2 chunks")
+			"accepted iff file == blob. non-trivial = distinct case with >= 2 chunks. Trace validation: VerifyIndex under a cooperative scheduler "+
+			"(n = 1..5, byte flipped in chunk k / longer / shorter file, parent cancellation at a random step): the recorded events must be a run of "+
+			"Pool.stepJ over the regenerated batches (pool.accept), result and validated batches must agree")
 	m, err := StartModel(cfg.Driver)
 	if err != nil {
 		fatal(err)
